@@ -8,6 +8,8 @@
 // malformed string literal; offsets of other failures are not compared either.
 #include <sys/mman.h>
 
+#include <set>
+#include <algorithm>
 #include <memory>
 
 #include "common/families.hpp"
@@ -71,6 +73,53 @@ static std::string digest_text(const std::string& text, const std::vector<std::v
   }
   (void)paths;
   return d;
+}
+// keyed lookups through the optional lookup map (its comparator is an architecture-selected kernel): an object of 12
+// members named from a pool of keys of mixed lengths and byte values; every pool key is looked up with the map, without
+// it, and after removing a member under the map
+static const std::vector<std::string>& key_pool() {
+  static std::vector<std::string> pool;
+  if (pool.empty()) {
+    std::set<std::string> seen;
+    for (unsigned len : {0u, 1u, 2u, 3u, 7u, 8u, 9u, 15u, 16u, 17u, 31u, 32u, 33u, 40u, 64u, 65u}) {
+      std::string base(len, 'm');
+      if (seen.insert(base).second) pool.push_back(base);
+      for (unsigned pos : {0u, 1u, 6u, 7u, 8u, 15u, 16u, 31u, 32u, 63u})
+        for (unsigned char v : {(unsigned char)0x00, (unsigned char)0x01, (unsigned char)'a', (unsigned char)'z', (unsigned char)0x7f, (unsigned char)0x80, (unsigned char)0xc3, (unsigned char)0xff}) {
+          if (pos >= len) continue;
+          std::string k = base;
+          k[pos] = (char)v;
+          if (seen.insert(k).second) pool.push_back(k);
+        }
+    }
+  }
+  return pool;
+}
+static std::string digest_map_lookups(uint64_t idx) {
+  static const unsigned strides[8] = {1, 2, 3, 5, 7, 11, 13, 17};
+  const auto& pool = key_pool();
+  unsigned st = strides[idx % 8];
+  size_t i0 = idx / 8;
+  std::vector<size_t> ks;
+  for (unsigned j = 0; j < 12; j++) {
+    size_t k = (i0 + (size_t)j * st * 37) % pool.size();
+    if (std::find(ks.begin(), ks.end(), k) == ks.end()) ks.push_back(k);
+  }
+  Document doc;
+  auto& al = doc.GetAllocator();
+  doc.SetObject();
+  for (size_t j = 0; j < ks.size(); j++) doc.AddMember(pool[ks[j]], Node((int64_t)j), al, true);
+  std::string d = "MAP";
+  for (int pass = 0; pass < 3; pass++) {
+    if (pass == 1) doc.CreateMap(al);
+    if (pass == 2) d += std::string(" rm=") + (doc.RemoveMember(pool[ks[ks.size() / 2]]) ? "1" : "0");
+    d += pass == 0 ? " lin:" : pass == 1 ? " map:" : " after:";
+    for (size_t q = 0; q < pool.size(); q++) {
+      auto it = doc.FindMember(StringView(pool[q].data(), pool[q].size()));
+      d += it == doc.MemberEnd() ? "." : std::string(1, (char)('A' + (it - doc.MemberBegin())));
+    }
+  }
+  return d + " dump=" + doc.Dump();
 }
 static std::string digest_string_node(const std::string& bytes) {
   Document d;
@@ -164,6 +213,19 @@ int main(int argc, char** argv) {
     };
     tf.push_back(q);
   }
+  {
+    fam::TextFamily m;
+    m.meta.name = "MK_map_lookups";
+    m.meta.count = (uint64_t)key_pool().size() * 8;
+    m.meta.group = "MK";
+    m.meta.chunk = 64;
+    m.meta.rule = "objects of 12 members named from a pool of " + std::to_string(key_pool().size()) + " keys (lengths 0..65 around 8/16/32/64, one byte of value 00/01/a/z/7f/80/c3/ff at the positions where a word- or block-wise comparison changes regime), 8 strides: every pool key looked up without the map, with it, and after a RemoveMember under the map";
+    m.gen = [](uint64_t idx, std::string& out) {
+      out = std::to_string(idx);
+      return true;
+    };
+    tf.push_back(m);
+  }
   // paths for the on-demand part
   std::vector<std::vector<ref::Step>> paths;
   {
@@ -212,7 +274,7 @@ int main(int argc, char** argv) {
     }
     ctx.eval();
     ctx.nontriv();
-    std::string d = f.name[0] == 'Q' ? digest_string_node(text) : digest_text(text, paths, jps);
+    std::string d = f.name[0] == 'Q' ? digest_string_node(text) : f.name[0] == 'M' ? digest_map_lookups(idx) : digest_text(text, paths, jps);
     if (ctx.replay) {
       printf("DIGEST %s\n", vr::jstr(d).c_str());
       return;
